@@ -500,8 +500,15 @@ func (p *parser) parseForExpression() ast.Expression {
 	s := []string{}
 
 	for !p.curTokenIs(token.RPAREN) {
-		if p.curTokenIs(token.IDENT) {
+		switch {
+		case p.curTokenIs(token.IDENT):
 			s = append(s, p.curToken.Literal)
+		case p.curTokenIs(token.COMMA), p.curTokenIs(token.LPAREN):
+		default:
+			// only the names of the loop variables belong here; anything
+			// else (text, another tag, ...) would be dropped without a word
+			p.errors = append(p.errors, fmt.Sprintf("line %d: expected the loop variables, got %s", ln, p.curToken.Literal))
+			return nil
 		}
 
 		if p.peekTokenIs(token.LBRACE) || p.peekTokenIs(token.EOF) {
